@@ -243,6 +243,8 @@ class REPEX_state:
             trajs.append(self._trajs[ens])
         if self.printing():
             self.print_pick(tuple(enss), tuple(trajs0), self.cworker)
+        # the re-issued job is in flight again: keep it in the restart record
+        self.locked.append((list(enss), list(trajs0)))
         picked = {}
 
         child_rng = spawn_rng(self.rgen)
